@@ -16,6 +16,8 @@ D = 'server::streaming::deduplication::message_deduplicator::MessageDeduplicator
 
 
 def run(ctx, rep):
+    from props import accessors as _acc
+    _acc.check(ctx, rep, 'C18', 'R18.acc')
     b = ctx.fn_body(sf.APPEND)
     rep.rule('R18.a', 'the duplicate check precedes offset assignment: RetainedMessage::new and the push are control-dependent on try_insert==true; the branch is selected by the deduplicator being present', floor=3, analysis='A2+A3')
     ti = [c for c in b.calls if c.name == D + '::try_insert']
@@ -45,6 +47,34 @@ def run(ctx, rep):
             heads = {c.bb for c in b.calls if (c.fn or '').endswith('Iterator::next')}
             leak = [c for c in dedup_sites if c.bb in b.reachable(dup, avoid_blocks=heads | {bb_})]
             rep.ob('R18.a', sf.APPEND, 'duplicate edge stores nothing', not leak, b.where(bb_), 'the try_insert==false edge reaches the next iteration without push' if not leak else 'the duplicate edge still reaches %s' % short(leak[0].name))
+
+    rep.rule('R18.e', 'a dropped duplicate consumes no offset: in the deduplicating loop the offset of a kept message is base + (number of messages kept so far), the counter being incremented once, on the kept path only', floor=3, analysis='A10+A2')
+    dn = [c for c in news if b.dominates(t.bb, c.bb) and is_user_call(c)]
+    for c in dn:
+        f = canon(b.pexpr_operand(c.args[0]))
+        ok = f == '(phi{($u32 + 1) | 0} + phi{(1 + self.current_offset) | 0})'
+        rep.ob('R18.e', sf.APPEND, 'offset of a kept message', ok, c.where(), 'offset = %s' % f if ok else
+               'the offset of a kept message is `%s`, not base + count of kept messages: a dropped duplicate can consume an offset' % f)
+    incs = []
+    for blk in sorted(b.reach):
+        for s_ in b.stmts(blk):
+            rv = s_.get('rv')
+            if rv and rv['r'] == 'bin' and rv['op'].startswith('Add') and 'k' in rv['b'] and rv['b']['k'] == '1' and rv['b'].get('ty') == 'u32' and not s_.get('x'):
+                incs.append(blk)
+    loops = natural_loops(b)
+    inner = [bl for h, bl in loops if t.bb in bl]
+    if not inner:
+        rep.anchor_lost('R18.e', 'deduplicating loop')
+    else:
+        body_ = min(inner, key=len)
+        here = [blk for blk in incs if blk in body_]
+        kept = [blk for blk in here if any(expr_wraps_call(e, t.bb) and tr for e, tr, _ in bool_literals_at(b, blk))]
+        rep.ob('R18.e', sf.APPEND, 'counter incremented once, only for a kept message', len(here) == 1 and len(kept) == 1, b.where(here[0]) if here else None,
+               'one increment, control-dependent on try_insert==true' if len(here) == 1 and len(kept) == 1 else 'the kept-message counter has %d increments in the deduplicating loop, %d of them on the kept path' % (len(here), len(kept)))
+        # the counter feeding the offset is that counter and nothing else advances per iteration (an enumerate index would)
+        base_cnt = [c for c in dn if 'enumerate' in canon(b.pexpr_operand(c.args[0]), 0, 3).lower()]
+        rep.ob('R18.e', sf.APPEND, 'offset does not use the position in the incoming batch', not base_cnt, base_cnt[0].where() if base_cnt else None,
+               None if not base_cnt else 'the offset is derived from the position of the message in the incoming batch, which also counts dropped duplicates')
 
     rep.rule('R18.b', 'with deduplication off nothing is dropped: in the other loop every iteration pushes', floor=1, analysis='A2')
     pp = [c for c in pushes if c in plain_sites]
